@@ -267,14 +267,15 @@ Definition lock_try (s : state) (v : vid) (t : tid) (l : lid) (k : lkk) : option
       end
   end.
 
+(* e2::Env::alive: the target exists and has not finished (a main thread parks and stays valid) *)
 Definition alive (s : state) (k : tid) : bool :=
   let r := th s k in
   negb (tstate_eqb (st r) NEW) && negb (tstate_eqb (st r) DONE) &&
-  negb (match prog r, tpc r with
-        | [], PIdle => true
-        | [], PParked => true
-        | _, _ => false
-        end).
+  (Nat.ltb k (nvc s) ||
+   negb (match prog r, tpc r with
+         | [], PIdle => true
+         | _, _ => false
+         end)).
 
 Definition expiration_of (s : state) (d : Z) : Z := if d =? 0 then 0 else sat_add (now s) d.
 
@@ -351,10 +352,11 @@ Definition thread_step (s : state) (v : vid) (t : tid) : option state :=
                 Some (set_running (updT s1 t (fun x => t_st x DONE)) v)
           end
       end
-  | PParked =>
+  | PParked =>                                   (* while (true) thread_usleep(-1): woken by an interrupt *)
       match lk r with
       | Some _ => None
-      | None => Some (set_pc (prepare_usleep s v t None MAX64) t PParked)
+      | None => let '(_, _, s1) := take_err s t in
+                Some (set_pc (prepare_usleep s1 v t None MAX64) t PParked)
       end
   | PYielded as_sleep =>
       let e := err r in                                                (* returned, NOT cleared *)
